@@ -154,8 +154,8 @@ def r4_tables(ctx, MAX):
                 if not okcall:
                     continue
                 cover = ('call', calls[0][0], calls[0][1])
-                cv = o.state.variants.get(cover)
                 cnames = ctx.crate(cfg).variant_names('character_sets::CoverResult')
+                cv = known_variant(ip, o.state, cover, len(cnames))     # matched on, or decided by exclusion (if let / matches! chains)
                 cname = cnames[cv] if cv is not None else None
                 if name == 'good_char_set':
                     exp = None if cname is None else (cname != 'Overlaps')
